@@ -552,10 +552,12 @@ func compileV2Metadata(tables []TableMetadata, logger StdLogger) {
 
 		for _, columnName := range table.OrderedColumns {
 			column := table.Columns[columnName]
-			if column.Kind == ColumnPartitionKey {
-				table.PartitionKey[column.ComponentIndex] = column
-			} else if column.Kind == ColumnClusteringKey {
-				table.ClusteringColumns[column.ComponentIndex] = column
+			// the position comes from the schema tables, do not trust it
+			idx := column.ComponentIndex
+			if column.Kind == ColumnPartitionKey && idx >= 0 && idx < len(table.PartitionKey) {
+				table.PartitionKey[idx] = column
+			} else if column.Kind == ColumnClusteringKey && idx >= 0 && idx < len(table.ClusteringColumns) {
+				table.ClusteringColumns[idx] = column
 			}
 		}
 	}
@@ -565,7 +567,8 @@ func compileV2Metadata(tables []TableMetadata, logger StdLogger) {
 func componentColumnCountOfType(columns map[string]*ColumnMetadata, kind ColumnKind) int {
 	maxComponentIndex := -1
 	for _, column := range columns {
-		if column.Kind == kind && column.ComponentIndex > maxComponentIndex {
+		// a position cannot be larger than the number of columns
+		if column.Kind == kind && column.ComponentIndex > maxComponentIndex && column.ComponentIndex < len(columns) {
 			maxComponentIndex = column.ComponentIndex
 		}
 	}
